@@ -463,45 +463,118 @@ func c01ArrayVariable(c *Ctx, rule string) {
 		}
 		return true
 	}
-	// the call that matches the variable
-	var vcall *ssa.Call
-	nacm := 0
-	ssau.Instrs(match, func(in ssa.Instruction) {
-		cl, ok := in.(*ssa.Call)
-		if !ok || cl.Common().StaticCallee() != acm || len(cl.Common().Args) < 3 {
+	// the functions that make up the array case: the one that calls getVariable and what it reaches without going
+	// through getVariable, arraycatMatch or (when the array case has a function of its own) the matcher's entry
+	frame := match
+	entry := c.P.Func("match", "Matcher", "match")
+	inArr := map[*ssa.Function]bool{}
+	var arrFns []*ssa.Function
+	var visitArr func(f *ssa.Function)
+	visitArr = func(f *ssa.Function) {
+		if f == nil || f.Blocks == nil || inArr[f] || prog.PkgOf(f) != "match" || f == getVar || f == acm || (f == entry && frame != entry) {
 			return
 		}
-		nacm++
-		p := cl.Common().Args[2]
-		if mi, isMI := p.(*ssa.MakeInterface); isMI {
-			if _, isStr := mi.X.Type().Underlying().(*types.Basic); isStr {
-				vcall = cl
-				c.R.Check(onlyFrom(p, v), rule, "match: the variable handed to arraycatMatch is the one getVariable found", c.pos(cl), "getVariable's first result, unchanged", "the variable matched against the left-over elements is not (only) the variable of the pattern array")
-			}
+		inArr[f] = true
+		arrFns = append(arrFns, f)
+		for _, an := range f.AnonFuncs {
+			visitArr(an)
 		}
-	})
+		ssau.Instrs(f, func(in ssa.Instruction) {
+			if ci, ok := in.(ssa.CallInstruction); ok {
+				visitArr(ci.Common().StaticCallee())
+			}
+			if mc, ok := in.(*ssa.MakeClosure); ok {
+				if w, isF := mc.Fn.(*ssa.Function); isF {
+					visitArr(w)
+				}
+			}
+		})
+	}
+	visitArr(frame)
+	// pattern positions: (function, argument) pairs through which a value reaches arraycatMatch as the pattern
+	// element to be matched — arraycatMatch's own, and parameters of helpers that hand them on unchanged
+	type argPos struct {
+		f *ssa.Function
+		i int
+	}
+	patPos := map[argPos]bool{{acm, 2}: true}
+	for changed := true; changed; {
+		changed = false
+		for _, g := range arrFns {
+			ssau.Instrs(g, func(in ssa.Instruction) {
+				cl, ok := in.(*ssa.Call)
+				if !ok || cl.Common().StaticCallee() == nil {
+					return
+				}
+				for i, a := range cl.Common().Args {
+					if !patPos[argPos{cl.Common().StaticCallee(), i}] {
+						continue
+					}
+					if mi, isMI := a.(*ssa.MakeInterface); isMI {
+						a = mi.X
+					}
+					if pa, isP := a.(*ssa.Parameter); isP && pa.Parent() == g {
+						if k := (argPos{g, paramIdx(pa)}); !patPos[k] {
+							patPos[k] = true
+							changed = true
+						}
+					}
+				}
+			})
+		}
+	}
+	// the calls that match the variable
+	var vcalls []*ssa.Call
+	nacm := 0
+	for _, g := range arrFns {
+		ssau.Instrs(g, func(in ssa.Instruction) {
+			cl, ok := in.(*ssa.Call)
+			if !ok || cl.Common().StaticCallee() == nil {
+				return
+			}
+			for i, p := range cl.Common().Args {
+				if !patPos[argPos{cl.Common().StaticCallee(), i}] {
+					continue
+				}
+				nacm++
+				if mi, isMI := p.(*ssa.MakeInterface); isMI {
+					if _, isStr := mi.X.Type().Underlying().(*types.Basic); isStr {
+						vcalls = append(vcalls, cl)
+						c.R.Check(onlyFrom(p, v), rule, "match: the variable handed to arraycatMatch is the one getVariable found", c.pos(cl), "getVariable's first result, unchanged", "the variable matched against the left-over elements is not (only) the variable of the pattern array")
+					}
+				}
+			}
+		})
+	}
+	var vcall *ssa.Call
+	if len(vcalls) > 0 {
+		vcall = vcalls[0]
+	}
 	if vcall == nil {
 		c.R.Violate(rule, "match: the array's variable is matched by arraycatMatch", c.pos(gv), "no call of arraycatMatch with the variable found")
 		return
 	}
 	// the constants iterated are getVariable's
 	nrange := 0
-	for _, l := range flow.Loops(match) {
-		op := loopOperand(l)
-		if op == nil || !gv.Block().Dominates(l.Header) {
-			continue
-		}
-		if sl, ok := op.Type().Underlying().(*types.Slice); !ok || !types.IsInterface(sl.Elem()) {
-			continue
-		}
-		if onlyFrom(op, xs) {
-			nrange++
-		} else if ds := deepDefs(op, scope); len(ds) > 0 {
-			for _, d := range ds {
-				if d == xs {
-					// xs mixed with something else
-					c.R.Violate(rule, "match: the constant elements iterated are the ones getVariable found", c.pos(l.Header.Instrs[0]), "the list of the pattern array's other elements is extended or replaced before it is matched")
-					nrange++
+	for _, g := range arrFns {
+		for _, l := range flow.Loops(g) {
+			op := loopOperand(l)
+			// (a loop in the frame before getVariable is not about its results; in a helper the operand can only be
+			// getVariable's result if the helper is called after it)
+			if op == nil || (g == frame && !gv.Block().Dominates(l.Header)) {
+				continue
+			}
+			if sl, ok := op.Type().Underlying().(*types.Slice); !ok || !types.IsInterface(sl.Elem()) {
+				continue
+			}
+			if onlyFrom(op, xs) {
+				nrange++
+			} else {
+				for _, d := range deepDefs(op, scope) {
+					if d == xs {
+						c.R.Violate(rule, "match: the constant elements iterated are the ones getVariable found", c.pos(l.Header.Instrs[0]), "the list of the pattern array's other elements is extended or replaced before it is matched")
+						nrange++
+					}
 				}
 			}
 		}
@@ -518,30 +591,66 @@ func c01ArrayVariable(c *Ctx, rule string) {
 		if !ok || len(ret.Results) != 2 || !gv.Block().Dominates(b) || b == gv.Block() {
 			continue
 		}
-		for _, d := range phiEdgesWithBlocks(ret.Results[0], b) {
-			if ssau.IsNilConst(d.v) {
-				continue
-			}
-			n++
-			noVar := false
-			for _, ft := range flow.Expand(flow.FactsAt(d.b)) {
-				if bo, isB := ft.Cond.(*ssa.BinOp); isB && ((bo.Op == token.EQL && ft.True) || (bo.Op == token.NEQ && !ft.True)) {
-					x, y := bo.X, bo.Y
-					if _, isC := x.(*ssa.Const); isC {
-						x, y = y, x
-					}
-					if s, isS := ssau.ConstString(y); isS && s == "" && x == v {
-						noVar = true
+		// an exit is judged where the answer is chosen; an answer that a helper of the array case computes is
+		// judged at the call and, failing that, at each of the helper's own exits
+		var judge func(val ssa.Value, blk *ssa.BasicBlock, depth int)
+		judge = func(val ssa.Value, blk *ssa.BasicBlock, depth int) {
+			for _, d := range phiEdgesWithBlocks(val, blk) {
+				if ssau.IsNilConst(d.v) {
+					continue
+				}
+				noVar := false
+				for _, ft := range flow.Expand(flow.FactsAt(d.b)) {
+					if bo, isB := ft.Cond.(*ssa.BinOp); isB && ((bo.Op == token.EQL && ft.True) || (bo.Op == token.NEQ && !ft.True)) {
+						x, y := bo.X, bo.Y
+						if _, isC := x.(*ssa.Const); isC {
+							x, y = y, x
+						}
+						if s, isS := ssau.ConstString(y); isS && s == "" && (x == v || onlyFrom(x, v)) {
+							noVar = true
+						}
 					}
 				}
+				after := false
+				for _, vc := range vcalls {
+					if vc.Parent() == d.b.Parent() && (vc.Block() == d.b || vc.Block().Dominates(d.b)) {
+						after = true
+					}
+				}
+				if !noVar && !after && depth < 6 {
+					if cl, idx := resultCall(d.v); cl != nil {
+						if sc := cl.Common().StaticCallee(); sc != nil && sc.Blocks != nil && inArr[sc] {
+							for _, rb := range sc.Blocks {
+								if r2, ok := rb.Instrs[len(rb.Instrs)-1].(*ssa.Return); ok && idx < len(r2.Results) {
+									judge(r2.Results[idx], rb, depth+1)
+								}
+							}
+							continue
+						}
+					}
+				}
+				n++
+				c.R.Check(noVar || after, rule, fmt.Sprintf("match: success exit #%d of the array case", n), c.pos(ret), "under 'the pattern array has no variable', or after arraycatMatch matched the variable", "a pattern array with a variable can match without the variable having been matched against an element of its own (arraycatMatch is also where a bound or inequality variable is judged)")
 			}
-			after := vcall.Block() == d.b || vcall.Block().Dominates(d.b)
-			c.R.Check(noVar || after, rule, fmt.Sprintf("match: success exit #%d of the array case", n), c.pos(ret), "under 'the pattern array has no variable', or after arraycatMatch matched the variable", "a pattern array with a variable can match without the variable having been matched against an element of its own (arraycatMatch is also where a bound or inequality variable is judged)")
 		}
+		judge(ret.Results[0], b, 0)
 	}
 	if n == 0 {
 		c.R.Break(rule + ": no success exit of the array case found")
 	}
+}
+
+// resultCall: the call a value is a result of (the call itself, or the call whose tuple it is extracted from) and
+// the index of the result.
+func resultCall(v ssa.Value) (*ssa.Call, int) {
+	switch x := v.(type) {
+	case *ssa.Call:
+		return x, 0
+	case *ssa.Extract:
+		cl, _ := x.Tuple.(*ssa.Call)
+		return cl, x.Index
+	}
+	return nil, 0
 }
 
 // c08ExecHandsBack: C08-R8.  The messages an action emits are collected in the Execution that the emit callback
